@@ -356,6 +356,9 @@ class Gen:
         """Random surface type valid in `pkg`'s scope, using definitions in `avail` (name list)."""
         r = self.rng
         avail = avail if avail is not None else self.avail(pkg)
+        if depth <= 0:
+            # no generic instantiation at the leaves: keeps the size of type expressions bounded
+            avail = [n for n in avail if not pkg.find(n)[0].get("tparams")]
         choices = ["prim"] * 5
         if avail:
             choices += ["named"] * 4
@@ -895,3 +898,62 @@ def canon_stepvals(vals):
         else:
             out.append(["stream", [canon_val(x) for x in sv[1]]])
     return out
+
+
+# ----------------------------------------------------------------------------- directed models
+
+def directed_package(namespace="Dir"):
+    """A fixed package that systematically crosses type constructors with element types, so that
+    coverage of the (constructor x primitive) matrix does not depend on luck."""
+    pkg = Package(namespace)
+    P = lambda n: ("prim", n)
+    prims_seq = [p for p in PRIMS if p != "bool"]     # bool sequences: C08 finding region (C++)
+    pkg.defs.append({"kind": "enum", "name": "DE", "flags": False, "base": "uint16", "auto": False,
+                     "values": [("a", 0), ("b", 7), ("c", 65535)]})
+    pkg.defs.append({"kind": "enum", "name": "DF", "flags": True, "base": None, "auto": True,
+                     "values": [("x", 1), ("y", 2), ("z", 4)]})
+    pkg.defs.append({"kind": "record", "name": "Pix", "tparams": [],
+                     "fields": [("r", P("uint8")), ("g", P("uint8")), ("b", P("uint8"))]})
+    pkg.defs.append({"kind": "record", "name": "Mixed", "tparams": [],
+                     "fields": [("a", P("int8")), ("b", P("float64")), ("c", P("uint16"))]})
+    pkg.defs.append({"kind": "record", "name": "Frame", "tparams": [],
+                     "fields": [("index", P("uint32")), ("label", P("string")),
+                                ("data", ("arr", P("float32"), ("rank", 2, None))),
+                                ("tail", ("opt", P("int64")))]})
+    pkg.defs.append({"kind": "record", "name": "Pair", "tparams": ["A", "B"],
+                     "fields": [("first", ("tparam", "A")), ("second", ("tparam", "B"))]})
+    pkg.defs.append({"kind": "alias", "name": "Img", "tparams": ["T"], "type": ("arr", ("tparam", "T"), ("dyn",))})
+    ts_elems = ["int8", "uint8", "float32", "float64", "complexfloat32", "complexfloat64", "bool"]
+    steps = []
+    for i, e in enumerate(ts_elems):
+        steps.append((f"d{i}", ("arr", P(e), ("dyn",)), True))
+        steps.append((f"r{i}", ("arr", P(e), ("rank", 2, None)), True))
+        steps.append((f"f{i}", ("arr", P(e), ("fixed", [2, 3], None)), True))
+    pkg.defs.append({"kind": "protocol", "name": "PArrTs", "steps": steps})
+    steps = []
+    for i, e in enumerate(["int16", "int32", "int64", "uint16", "uint32", "uint64", "size", "string", "date", "time", "datetime"]):
+        steps.append((f"a{i}", ("arr", P(e), ("rank", 1, None)), i % 2 == 0))
+    steps.append(("en", ("arr", ("named", "DE", []), ("dyn",)), True))
+    steps.append(("fl", ("arr", ("named", "DF", []), ("fixed", [3], None)), False))
+    steps.append(("pix", ("arr", ("named", "Pix", []), ("rank", 2, None)), True))
+    steps.append(("mixed", ("arr", ("named", "Mixed", []), ("dyn",)), True))
+    pkg.defs.append({"kind": "protocol", "name": "PArrVar", "steps": steps})
+    pkg.defs.append({"kind": "protocol", "name": "PFrames", "steps": [
+        ("header", ("named", "Frame", []), False),
+        ("frames", ("named", "Frame", []), True),
+        ("images", ("named", "Img", [P("float64")]), True),
+        ("pairs", ("named", "Pair", [("named", "Img", [P("uint8")]), ("vec", ("named", "Pix", []), None)]), True)]})
+    steps = [(f"v{i}", ("vec", P(e), None), i % 3 != 0) for i, e in enumerate(prims_seq)]
+    steps += [(f"w{i}", ("vec", P(e), 3), i % 3 == 0) for i, e in enumerate(prims_seq)]
+    steps.append(("vp", ("vec", ("named", "Pix", []), None), True))
+    steps.append(("vm", ("vec", ("named", "Mixed", []), 2), True))
+    pkg.defs.append({"kind": "protocol", "name": "PVec", "steps": steps})
+    steps = [(f"p{i}", P(e), i % 2 == 1 and e != "bool") for i, e in enumerate(PRIMS)]
+    steps += [(f"o{i}", ("opt", P(e)), i % 2 == 0) for i, e in enumerate(PRIMS)]
+    pkg.defs.append({"kind": "protocol", "name": "PPrim", "steps": steps})
+    steps = [(f"m{i}", ("map", P(k), P(PRIMS[(3 * i + 1) % len(PRIMS)])), i % 2 == 0) for i, k in enumerate(KEY_PRIMS)]
+    steps.append(("mu", ("map", P("string"), ("union", True, [("uA", P("int32")), ("uB", P("string")), ("uC", ("vec", P("float32"), None))])), True))
+    steps.append(("un", ("union", False, [(None, P("int32")), (None, P("float32")), (None, P("string")), (None, ("named", "Pix", []))]), True))
+    steps.append(("uu", ("union", True, [("dArr", ("arr", P("float64"), ("dyn",))), ("dMap", ("map", P("string"), P("int64"))), ("dEn", ("named", "DE", []))]), True))
+    pkg.defs.append({"kind": "protocol", "name": "PMapUnion", "steps": steps})
+    return pkg
